@@ -62,7 +62,7 @@ theorem installer_can_step_inside_meter {s : St} {t m : Nat} (hr : Reachable fal
             rw [hft] at hf2
             exact Frame.noConfusion hf2
           | _ => simp [hf2, regFrame] at h2
-  | iRegLocked m' r => exact ⟨.instRegBody, by simp only [step, hft]; split <;> (try split) <;> simp⟩
+  | iRegLocked m' r => exact ⟨.instRegBody, by simp only [step, hft]; (repeat' split) <;> simp⟩
   | _ => simp [hft, delFrame] at hf
 
 /-- **the loop over one meter terminates**: from any reachable state in which the installer is inside meter `m`, at
